@@ -193,6 +193,7 @@ def parseOp (ws : List String) : Option Op :=
     some (.retarget (getAcct r "src") (getD r "ext") (if t = "-" then "" else t))
   | "close" :: r => do pure (.closeMarket (← parseNat? (getD r "m")))
   | "send" :: r => do pure (.send (getD r "from") (getD r "to") (← parseCoinsD (getD r "coins")))
+  | "delegate" :: r => do pure (.delegate (getD r "from") (← parseCoin? (getD r "amt")))
   | _ => none
 
 /-! ### the checker: the property's conclusion on the implementation's dump -/
@@ -283,6 +284,7 @@ def expectedDelta (op : Op) (prev : ImplDump) : Option Delta :=
     some fun a d => - Spec.sumOver ps fun x => if x.source = a then Coins.amountOf x.sourceAmt d else 0
   | .retarget .. => some fun _ _ => 0
   | .send .. => some fun _ _ => 0
+  | .delegate .. => some fun _ _ => 0
   | .setMarket _ => some fun _ _ => 0
   | .closeMarket m =>
     let os := prev.orders.filter (·.market = m)
